@@ -198,3 +198,52 @@ func VH08c_xbus() {
 	verif.Reach("xbus-checked")
 	sock.Close()
 }
+
+// VH08d_stalled: a STAR/XSTAR or raw BUS hub with three peers, one of which is
+// stalled (its send queue is full): messages forwarded from the source still
+// reach the healthy peer, unchanged, once each; the stalled peer loses alone.
+func VH08d_stalled() {
+	proto := []string{"xstar", "star", "xbus"}[verif.Choice("proto", 3)]
+	lab := "C08/stalled/" + proto
+	sock := vp.New(proto)
+	verif.Assert(sock.SetOption(mangos.OptionWriteQLen, 1) == nil, lab+"/set-wqlen")
+	side := vt.Listen(sock, "a")
+	ps := []*vt.Pipe{side.Peer("src"), side.Peer("x"), side.Peer("y")}
+	stalled := 1 + verif.Choice("stalled", 2)
+	healthy := 3 - stalled
+	ps[stalled].SendMode = vt.SendBlock
+	K := verif.Param("K", 4)
+	var bodies [][]byte
+	for k := 0; k < K; k++ {
+		b := []byte{byte('a' + k), verif.Byte("payload")}
+		bodies = append(bodies, b)
+		wire := b
+		if proto != "xbus" {
+			wire = append([]byte{0, 0, 0, 0}, b...)
+		}
+		ps[0].Deliver(wire)
+		verif.Quiesce()
+		if proto == "xbus" {
+			// a raw BUS forwards only when the application (device) re-sends what it received
+			var m *mangos.Message
+			var err error
+			g := verif.Go("recv", func() { m, err = sock.RecvMsg() })
+			verif.Quiesce()
+			if !g.Done() || err != nil {
+				verif.Fail(lab + "/recv")
+				return
+			}
+			verif.Assert(sock.SendMsg(m) == nil, lab+"/forward")
+			verif.Quiesce()
+		}
+		got := ps[healthy].Sent
+		verif.Assert(len(got) == k+1, lab+"/healthy-peer-missed-a-forwarded-message")
+		if len(got) == k+1 {
+			w := got[k].Bytes()
+			verif.Assert(len(w) >= 2 && verif.BytesEq(w[len(w)-2:], b), lab+"/forwarded-message-garbled")
+		}
+	}
+	verif.Assert(len(ps[0].Sent) == 0, lab+"/echoed-to-the-source")
+	verif.Reach("stalled-checked")
+	sock.Close()
+}
